@@ -3,6 +3,8 @@ package main
 import (
 	"bufio"
 	"io"
+	"io/fs"
+	"os"
 	"net/netip"
 	"reflect"
 	"strconv"
@@ -26,6 +28,12 @@ func setupNetip(e *sym.Engine, st *sym.State, l *sym.Loaded) {
 	e.NativeGlob["github.com/miekg/dns.TypeToString"] = &dns.TypeToString
 	e.NativeGlob["strconv.ErrSyntax"] = &strconv.ErrSyntax
 	e.NativeGlob["strconv.ErrRange"] = &strconv.ErrRange
+	e.NativeGlob["os.ErrClosed"] = &os.ErrClosed
+	e.NativeGlob["os.ErrNotExist"] = &os.ErrNotExist
+	e.NativeGlob["os.ErrInvalid"] = &os.ErrInvalid
+	e.NativeGlob["io/fs.ErrClosed"] = &fs.ErrClosed
+	e.NativeGlob["io/fs.ErrNotExist"] = &fs.ErrNotExist
+	e.NativeGlob["io/fs.ErrInvalid"] = &fs.ErrInvalid
 	e.NativeGlob["io.EOF"] = &io.EOF
 	e.NativeGlob["io.ErrNoProgress"] = &io.ErrNoProgress
 	e.NativeGlob["io.ErrUnexpectedEOF"] = &io.ErrUnexpectedEOF
